@@ -61,6 +61,9 @@ class Unit:
                         meta["dropped"].append(note)
                 if it.get("strip_pub"):
                     text = re.sub(r"^pub\s+", "", text)
+                    note = "`pub` dropped from the fn signature (Verus requires a public fn's ensures to mention only public fields)"
+                    if note not in meta["dropped"]:
+                        meta["dropped"].append(note)
                 pre = it.get("pre_attr")
                 if pre:
                     text = pre + "\n" + text
